@@ -47,6 +47,10 @@ func c03Alphabet() []c03Letter {
 		}},
 		{"self", func(D factom.FAAddress, s uint64, _ factom.FAAddress) kit.Tx { return kit.Transfer(D, "pUSD", 10*s, D) }},
 		{"burn", func(D factom.FAAddress, s uint64, burn factom.FAAddress) kit.Tx { return kit.Transfer(D, "pUSD", 3*s, burn) }},
+		{"burnmix", func(D factom.FAAddress, s uint64, burn factom.FAAddress) kit.Tx {
+			// special recipients in the middle of ordinary ones: the burn address (and the all-zero address) first, then B and C
+			return kit.Tx{From: D, Asset: "pUSD", Amount: 7 * s, To: []kit.Out{{Addr: B, Amount: s}, {Addr: burn, Amount: s}, {Addr: AddrC, Amount: 2 * s}, {Addr: OldBurn(), Amount: s}, {Addr: B, Amount: 2 * s}}}
+		}},
 		{"usd>eur", func(D factom.FAAddress, s uint64, _ factom.FAAddress) kit.Tx { return kit.Conversion(D, "pUSD", 6*s, "pEUR") }},
 		{"eur>usd", func(D factom.FAAddress, s uint64, _ factom.FAAddress) kit.Tx { return kit.Conversion(D, "pEUR", 4*s, "pUSD") }},
 		{"usd>peg", func(D factom.FAAddress, s uint64, _ factom.FAAddress) kit.Tx { return kit.Conversion(D, "pUSD", 5*s, "PEG") }},
@@ -245,8 +249,8 @@ func c03One(c *core.Ctx, r *core.Result, w *World, era drive.Era, base *LedgerVi
 			add(D, t.Conv, out)
 		} else {
 			for _, o := range t.To {
-				if o.Addr == burn && hExec >= era.V202 {
-					continue // destroyed
+				if (o.Addr == burn && hExec >= era.V202) || (o.Addr == OldBurn() && hExec < era.V202) {
+					continue // destroyed (before 2.0.2 the all-zero address plays that role)
 				}
 				if o.Addr == D {
 					running[t.Asset] += int64(o.Amount)
